@@ -436,6 +436,10 @@ def _static_case(draw):
   if shape['kind'] == 'method':
     shape['method_contains_class'] = draw(st.booleans())
     shape['nested_host'] = draw(st.sampled_from([None, None, 'class', 'function']))
+    if shape['nested_host'] is None and draw(st.booleans()):
+      # a later class of the same module has a registered method of the same name: what is bound
+      # (and injected) for this method is not affected by it
+      shape['later_sibling'] = True
   if shape['kind'] == 'function' and draw(st.integers(0, 2)) == 0:
     # the function is wrapped by 1-2 functools.wraps decorators before it is registered: its
     # configurable parameters are still those of the real signature
